@@ -705,7 +705,7 @@ pub fn check_c05(tier: Tier) -> i32 {
   let thorough = tier == Tier::Thorough;
   use Op::*;
   use Sz::*;
-  let alphabet = vec![B(N(7)), B(N(40)), B(R), T(U64), AB(A16, N(3)), D(0), D(1), F(0), Disc, SetMin(64), IncDisc(3)];
+  let alphabet = vec![B(N(7)), B(N(40)), B(R), T(U64), AB(A16, N(3)), D(0), D(1), F(0), Disc, SetMin(64), IncDisc(3), Clear];
   let depth = 3;
   let mut items = vec![];
   for fl in Fl::ALL {
@@ -714,7 +714,8 @@ pub fn check_c05(tier: Tier) -> i32 {
         if !thorough && reserved == 5 && !sync {
           continue;
         }
-        let mut c = Cfg::new(fl, Backend::File, true, 256 + reserved + 3);
+        // the `unify` option is irrelevant for files (always unified): alternate it over the cells
+        let mut c = Cfg::new(fl, Backend::File, (reserved == 0) != sync, 256 + reserved + 3);
         c.reserved = reserved;
         c.magic = 9;
         items.push((c, sync));
